@@ -2388,7 +2388,7 @@ func (p *parser) parseProperty(startLoc logger.Loc, kind js_ast.PropertyKind, op
 
 				case "private", "protected", "public", "readonly", "override":
 					// Skip over TypeScript keywords
-					if opts.isClass && p.options.ts.Parse {
+					if opts.isClass && p.options.ts.Parse && !p.lexer.HasNewlineBefore {
 						return p.parseProperty(startLoc, kind, opts, nil)
 					}
 				}
